@@ -6,6 +6,18 @@ HERE = os.path.dirname(os.path.dirname(os.path.abspath(__file__)))
 
 # id -> (level category, technique, level text, level note, design ref)
 CHECKS = {
+ "C10": ("model_checking", "explicit-state BFS by history replay over real node meshes per mode with a per-step conservation oracle",
+         "Router/tun meshes with claims nested across nodes (3 nodes, 4 in thorough): all sequences of Inject(node, one of 7 destinations: inside each peer's claim, inside the own claim, covered by two claims, unclaimed, broadcast; 2 sources) and Tick to depth 3 quick / 4 thorough; switch/tap and hub/tap meshes with C13's frame universe to depth 3/4. After every injection: the reading node emits exactly one datagram per peer selected by the reference rule and to nobody else, no node emits anything because it received payload, every selected peer writes the byte-identical frame to its interface exactly once and nobody else writes, unroutable packets are counted as dropped. Payload-looking datagrams of 5 message types from an unknown address, an absent node and an address the node is currently dialling never reach an interface.",
+         "Trusted: reference forwarding rule (most specific claim among the peers' claims; learning table of C13). Non-duplicating FIFO network.",
+         "DESIGN.md section 5 C10"),
+ "C13": ("model_checking", "explicit-state BFS by history replay over real 3-node switch/hub meshes against a reference learning table; exhaustive tag-control enumeration",
+         "Real 3-node meshes in switch/tap mode (switch timeout 10 s, peer timeout 5 s): all sequences over Inject(node, 2 source MACs x 2 MACs + broadcast x tag set {none, VLAN 0 with priority 0/7, VLAN 0x67 with priority 0/7, ...}), Advance(1, T-1, T, T+1) and Drop(node) to depth 3 quick / 4 thorough; after every injection the set of interfaces that received the frame, the wire datagrams and the bytes must equal the reference (learned peer for a known, fresh (12-bit VLAN or untagged, MAC) key with VLAN 0 = untagged, else every peer; last writer wins; forgotten after T seconds or when the peer leaves - checked while entries are still fresh by age); in every state the implementation's fresh learned entries equal the reference table. Hub meshes and a router mesh must learn nothing. All 65536 tag-control values: same addresses as their 12-bit VLAN id alone, VLAN 0 = untagged.",
+         "Trusted: reference table (30 lines). Every injection happens after the sweep of its second, so freshness is exact.",
+         "DESIGN.md section 5 C13"),
+ "C14": ("exploration", "exhaustive enumeration of bootstrap configurations and self-dial source maps, one real multi-node run each on a reliable network",
+         "All connected labelled graphs on 2, 3 and 4 nodes (quick: trees for 4; thorough: all 38 graphs and the 125 trees on 5 nodes) x every orientation per edge (u dials v, v dials u, both) x NAT assignments x both salted-hash orders, plus for 3 nodes a late joiner (one node down for the first 130 s, longer than a handshake's retry budget): dial instructions are registered as reconnect peers like main.rs does; if the usable bootstrap graph is connected every pair must be mutually connected within n announcement intervals + 10 s, and at every second no node has a peer with its own node id or address. Self-dial: the node dials alias 1 or 2 of itself while the simulated translation shows it, for each of the 27 maps {real, alias1, alias2} -> source seen, its own datagrams from that source; alone and inside a 3-mesh whose members reach it through the alias (with connection tracking) - the alias must be adopted as own address.",
+         "Trusted: the NAT model is the repository's MockSocket address filter; alias translation is the harness's (bidirectional, connection-tracked). Salts of a node's handshake objects differ from call to call (same leading byte).",
+         "DESIGN.md section 5 C14"),
  "C11": ("model_checking", "explicit-state BFS by history replay over a real ClaimTable against a history-based reference; exhaustive prefix-match enumeration",
          "Per address family (IPv4, IPv6, VLAN+MAC) all sequences over {announce one of 6 claim subsets for one of 3 peers, disconnect, lookup of 4 addresses hitting every nesting level and none, advance 0/1/switch timeout/peer timeout with sweep, advance 1 without sweep} to depth 4 quick / 6 thorough (2.7 M canonical states) run on the real table; each lookup result must be in the allowed set of a history-only reference: peer of a most specific live claim (one sweep of slack), nothing if no live claim contains the address, or an earlier decision still within the switch timeout whose claim is still announced and whose peer was not removed; every state is additionally probed with all 4 lookups. Range::matches is compared with a bit-by-bit reference on the complete 8-bit universe, the 16-bit universe (boundary addresses quick, all thorough) and one-bit-difference addresses for 4/6/8/16-byte ranges with prefixes 0..=255. Node level: unknown destinations are dropped and counted in router mode and sent once to every peer in switch/hub mode; most specific claim wins across peers.",
          "Trusted: the reference (40 lines) and the canonical form (audited). Time constants scaled down (3 s / 7 s).",
